@@ -27,7 +27,9 @@ def gen_cases(rng, n, max_depth):
                 # range mentioning the outer iterator: a resource of some leaf, over one of its parameters if it has any
                 leaves = [n for n, _ in H._nodes(r) if not n["children"]]
                 lf = rng.choice(leaves)
-                top = E.sym(rng.choice(lf["input_params"])) if lf["input_params"] else E.num(3)
+                # (the outer range ends at a small number: a parameter may be linked from a cube, and a triangular product over a
+                # thousand terms is not what this stream is about)
+                top = E.num(rng.randint(2, 4))
                 kind = rng.choice(["sum", "sum", "prod"])
                 inner = ["b", kind, "j", E.op("add", E.op("mul", E.num(2), E.sym("j")), E.sym("i")), E.num(0), E.sym("i")]
                 lf["resources"].append({"name": "zs", "type": "other", "value": ["b", kind, "i", inner, E.num(1), top]})
